@@ -113,7 +113,7 @@ func (p c09) Run(runseed uint64, tier string, acc *Acc) []*core.Violation {
 	for k := 1; k <= n; k++ {
 		fl := func() string { return core.Flavors[r.Intn(len(core.Flavors))] } // what kind of error value the sink returns
 		kinds := []core.SinkFault{{K: k, Kind: "err0", Flavor: fl()}}
-		if (tier == "thorough" && !w.Large) || r.Chance(1, 4) {
+		if (tier == "thorough" && !w.Large && w.Shape != "wide") || r.Chance(1, 4) {
 			kinds = append(kinds,
 				core.SinkFault{K: k, Kind: "torn", Arg: r.Intn(1 << 16), Flavor: fl()},
 				core.SinkFault{K: k, Kind: "full", Flavor: fl()},
